@@ -8,6 +8,7 @@ open MdIt.Inline
 #check @inline_rule_progress_autolink
 #check @inline_rule_progress_emph
 #check @inline_rule_progress_link
+#check @inline_rule_bounds_link
 #check @tokenize_progress
 #check @fuel_suffices
 #check @parseInline_fuel
@@ -80,3 +81,4 @@ open MdIt.Inline
 #print axioms skipToken_calm
 #print axioms translate_expand
 #print axioms translate_same_line
+#print axioms inline_rule_bounds_link
